@@ -234,7 +234,10 @@ func (c *connection) recv(conn net.Conn, connDone chan bool) {
 			}
 		}
 		n, err = conn.Read(buffer)
-		if err != nil {
+		// a Read may hand back data together with an error (crypto/tls does when the peer's
+		// close_notify is right behind the data): the data is framed first, the next Read
+		// reports the error again
+		if err != nil && n == 0 {
 			if isNoDataError(err) {
 				continue // no data, not error
 			}
